@@ -2,7 +2,9 @@ package main
 
 import (
 	"fmt"
+	"os"
 	"reflect"
+	"runtime/debug"
 	"strings"
 	"time"
 
@@ -150,13 +152,21 @@ var c12Kinds = []kindDesc{
 		func(v []FV) interface{} { return message.BranchCommitRequest{AbstractBranchEndRequest: branchEnd(v)} },
 		func(m interface{}) []FV { return branchEndX(m.(message.BranchCommitRequest).AbstractBranchEndRequest) }},
 	{"BranchCommitResult", fBranchEndR,
-		func(v []FV) interface{} { return message.BranchCommitResponse{AbstractBranchEndResponse: branchEndR(v)} },
-		func(m interface{}) []FV { return branchEndRX(m.(message.BranchCommitResponse).AbstractBranchEndResponse) }},
+		func(v []FV) interface{} {
+			return message.BranchCommitResponse{AbstractBranchEndResponse: branchEndR(v)}
+		},
+		func(m interface{}) []FV {
+			return branchEndRX(m.(message.BranchCommitResponse).AbstractBranchEndResponse)
+		}},
 	{"BranchRollback", fBranchEnd,
 		func(v []FV) interface{} { return message.BranchRollbackRequest{AbstractBranchEndRequest: branchEnd(v)} },
-		func(m interface{}) []FV { return branchEndX(m.(message.BranchRollbackRequest).AbstractBranchEndRequest) }},
+		func(m interface{}) []FV {
+			return branchEndX(m.(message.BranchRollbackRequest).AbstractBranchEndRequest)
+		}},
 	{"BranchRollbackResult", fBranchEndR,
-		func(v []FV) interface{} { return message.BranchRollbackResponse{AbstractBranchEndResponse: branchEndR(v)} },
+		func(v []FV) interface{} {
+			return message.BranchRollbackResponse{AbstractBranchEndResponse: branchEndR(v)}
+		},
 		func(m interface{}) []FV {
 			return branchEndRX(m.(message.BranchRollbackResponse).AbstractBranchEndResponse)
 		}},
@@ -164,13 +174,21 @@ var c12Kinds = []kindDesc{
 		func(v []FV) interface{} { return message.GlobalCommitRequest{AbstractGlobalEndRequest: globalEnd(v)} },
 		func(m interface{}) []FV { return globalEndX(m.(message.GlobalCommitRequest).AbstractGlobalEndRequest) }},
 	{"GlobalCommitResult", fGlobalEndR,
-		func(v []FV) interface{} { return message.GlobalCommitResponse{AbstractGlobalEndResponse: globalEndR(v)} },
-		func(m interface{}) []FV { return globalEndRX(m.(message.GlobalCommitResponse).AbstractGlobalEndResponse) }},
+		func(v []FV) interface{} {
+			return message.GlobalCommitResponse{AbstractGlobalEndResponse: globalEndR(v)}
+		},
+		func(m interface{}) []FV {
+			return globalEndRX(m.(message.GlobalCommitResponse).AbstractGlobalEndResponse)
+		}},
 	{"GlobalRollback", fGlobalEnd,
 		func(v []FV) interface{} { return message.GlobalRollbackRequest{AbstractGlobalEndRequest: globalEnd(v)} },
-		func(m interface{}) []FV { return globalEndX(m.(message.GlobalRollbackRequest).AbstractGlobalEndRequest) }},
+		func(m interface{}) []FV {
+			return globalEndX(m.(message.GlobalRollbackRequest).AbstractGlobalEndRequest)
+		}},
 	{"GlobalRollbackResult", fGlobalEndR,
-		func(v []FV) interface{} { return message.GlobalRollbackResponse{AbstractGlobalEndResponse: globalEndR(v)} },
+		func(v []FV) interface{} {
+			return message.GlobalRollbackResponse{AbstractGlobalEndResponse: globalEndR(v)}
+		},
 		func(m interface{}) []FV {
 			return globalEndRX(m.(message.GlobalRollbackResponse).AbstractGlobalEndResponse)
 		}},
@@ -197,13 +215,19 @@ var c12Kinds = []kindDesc{
 		}},
 	{"BranchReportResult", []string{"rc", "msg", "u8"},
 		func(v []FV) interface{} { return message.BranchReportResponse{AbstractTransactionResponse: resHead(v)} },
-		func(m interface{}) []FV { return resHeadX(m.(message.BranchReportResponse).AbstractTransactionResponse) }},
+		func(m interface{}) []FV {
+			return resHeadX(m.(message.BranchReportResponse).AbstractTransactionResponse)
+		}},
 	{"GlobalStatus", fGlobalEnd,
 		func(v []FV) interface{} { return message.GlobalStatusRequest{AbstractGlobalEndRequest: globalEnd(v)} },
 		func(m interface{}) []FV { return globalEndX(m.(message.GlobalStatusRequest).AbstractGlobalEndRequest) }},
 	{"GlobalStatusResult", fGlobalEndR,
-		func(v []FV) interface{} { return message.GlobalStatusResponse{AbstractGlobalEndResponse: globalEndR(v)} },
-		func(m interface{}) []FV { return globalEndRX(m.(message.GlobalStatusResponse).AbstractGlobalEndResponse) }},
+		func(v []FV) interface{} {
+			return message.GlobalStatusResponse{AbstractGlobalEndResponse: globalEndR(v)}
+		},
+		func(m interface{}) []FV {
+			return globalEndRX(m.(message.GlobalStatusResponse).AbstractGlobalEndResponse)
+		}},
 	{"GlobalReport", []string{"str2", "str2", "u8"},
 		func(v []FV) interface{} {
 			return message.GlobalReportRequest{AbstractGlobalEndRequest: globalEnd(v), GlobalStatus: message.GlobalStatus(v[2].N)}
@@ -213,8 +237,12 @@ var c12Kinds = []kindDesc{
 			return append(globalEndX(r.AbstractGlobalEndRequest), nat(uint64(byte(r.GlobalStatus))))
 		}},
 	{"GlobalReportResult", fGlobalEndR,
-		func(v []FV) interface{} { return message.GlobalReportResponse{AbstractGlobalEndResponse: globalEndR(v)} },
-		func(m interface{}) []FV { return globalEndRX(m.(message.GlobalReportResponse).AbstractGlobalEndResponse) }},
+		func(v []FV) interface{} {
+			return message.GlobalReportResponse{AbstractGlobalEndResponse: globalEndR(v)}
+		},
+		func(m interface{}) []FV {
+			return globalEndRX(m.(message.GlobalReportResponse).AbstractGlobalEndResponse)
+		}},
 	{"GlobalLockQuery", fBreg,
 		func(v []FV) interface{} { return message.GlobalLockQueryRequest{BranchRegisterRequest: breg(v)} },
 		func(m interface{}) []FV { return bregX(m.(message.GlobalLockQueryRequest).BranchRegisterRequest) }},
@@ -368,6 +396,9 @@ func safeCall(f func()) (panicked string) {
 	defer func() {
 		if r := recover(); r != nil {
 			panicked = fmt.Sprint(r)
+			if os.Getenv("VERIF_DEBUG") != "" {
+				fmt.Fprintf(os.Stderr, "PANIC %v\n%s\n", r, debug.Stack())
+			}
 		}
 	}()
 	f()
